@@ -5,9 +5,9 @@ import re
 from framework import coq_bs, coq_z, coq_N, coq_list
 
 ID = 'C13'
-COQ_IMPORTS = ['C13_Model']
+COQ_IMPORTS = ['C13_Model', 'C13_Rx']
 GENERATORS = ['gen_codes']
-MODELLED_FUNCS = {'sugar/core/cane.py': ['match', 'BioMatch.__init__', 'BioMatch.span'],
+MODELLED_FUNCS = {'sugar/core/cane.py': ['match', 'BioMatch.__init__', 'BioMatch.span', 'BioMatchList.groupby', '_groupby'],
                   'sugar/core/seq.py': ['BioSeq.match', 'BioSeq.matchall', 'BioBasket.match', 'BioBasket.matchall']}
 OPS = {'matchall': 0, 'match': 1, 'b_matchall': 2, 'b_match': 3}
 DEFAULTS = {'rf': 'fwd', 'start': 0, 'gap': '-'}
@@ -289,6 +289,16 @@ def gen_cases(rng, tier):
         cases.append(gen_one(rng, maxlen))
     for _ in range(400 if tier == 'quick' else 4000):
         cases.append(gen_history(rng))
+    for t in RX_FIXED:
+        for sq in ['ATG', 'AUG', 'ATTG', 'CCCCATG', 'ATGAAATAA', 'CAT', 'TTA', 'A-TG', 'AT-TG']:
+            for gap in [None, '-']:
+                cases.append({'_op': 'rx_matchall', 'seqs': [sq], '_rx': t, 'rf': 'both', '_rfkind': 'str', 'start': 0, '_gap': gap, '_omit': []})
+    for k in range(1500 if tier == 'quick' else 20000):
+        cases.append(gen_rx_case(rng, 200 if (tier == 'thorough' and k % 20 == 0) else 60))
+    for _ in range(300 if tier == 'quick' else 3000):
+        cases.append(gen_rx_small(rng))
+    for _ in range(60 if tier == 'quick' else 600):
+        cases.append(gen_span_case(rng))
     if tier == 'thorough':
         pats = ['start', 'ATG', '.TG', 'A.|T', 'AT|A', 'T.G|A']
         for ln in range(0, 6):
@@ -384,13 +394,29 @@ def _run_term(case):
 
 
 def model_term(case):
+    if _is_rx(case):
+        return 'out ' + _rx_run_term(case)
+    if case.get('_op') == 'span':
+        rf = case['rf']
+        return 'out (run_C13_span %s %s %s %s)' % ('None' if rf is None else '(Some %s)' % coq_z(rf), coq_z(case['L']), coq_z(case['b']), coq_z(case['e']))
     if case.get('_op') == 'history':
         return 'out (hist_join %s)' % coq_list([_run_term(c) for kind, c in hist_walk(case) if kind == 'call'])
     return 'out ' + _run_term(case)
 
 
 def split_model(case, m):
+    if _is_rx(case) or case.get('_op') == 'span':
+        return bool(m[0]), [m[1], m[2]]
     return bool(m[0]), m[1]
+
+
+def agree(case, implval, modelval):
+    if _is_rx(case) or case.get('_op') == 'span':
+        if isinstance(implval, dict):
+            return implval == modelval[0]
+        # the pattern handed to re is observable only through a reported match
+        return implval[0] == modelval[0] and (implval[1] is None or implval[1] == modelval[1])
+    return implval == modelval
 
 
 # ----------------------------------------------------------------------------- histories (state independence)
@@ -507,6 +533,10 @@ def _impl_history(case):
 
 
 def impl(case):
+    if _is_rx(case):
+        return _impl_rx(case)
+    if case.get('_op') == 'span':
+        return _impl_span(case)
     if case.get('_op') == 'history':
         return _impl_history(case)
     return _impl_single(case)
@@ -589,6 +619,445 @@ def gen_history(rng):
                           'sub': rng.choice(subs), 'rf': rf, '_rfkind': rfkind, 'start': rng.choice([0, 0, 1, 3, 5]),
                           '_gap': _hist_gap(rng, texts), '_omit': []})
     return {'_op': 'history', 'seqs': texts, '_ids': ids, 'steps': steps}
+
+
+
+# ----------------------------------------------------------------------------- regex layer (model: coq/model/C13_Rx.v)
+# syntax trees as JSON lists: ['chr', c] ['dot'] ['cls', neg, body] ['cat', a, b] ['alt', a, b] ['star', a] ['plus', a] ['opt', a]
+# ['grp', capturing, a]; the pattern text is rx_show(tree) (the model checks that its own printer gives the same text)
+RX_OPS = {'rx_matchall': 0, 'rx_match': 1, 'rx_b_matchall': 2, 'rx_b_match': 3, 'rx_groupby': 4, 'rx_b_groupby': 5}
+RX_ALIAS = {'start': ['alt', ['cat', ['chr', 'A'], ['cat', ['chr', 'U'], ['chr', 'G']]], ['cat', ['chr', 'A'], ['cat', ['chr', 'T'], ['chr', 'G']]]]}
+
+
+def _words_rx(words):
+    def w2(w):
+        items = [['dot'] if c == '.' else ['chr', c] for c in w]
+        t = items[-1]
+        for it in reversed(items[:-1]):
+            t = ['cat', it, t]
+        return t
+    ts = [w2(w) for w in words]
+    t = ts[-1]
+    for x in reversed(ts[:-1]):
+        t = ['alt', x, t]
+    return t
+
+
+RX_ALIAS['stop'] = _words_rx(['UAG', 'UAA', 'UGA', 'TAG', 'TAA', 'TGA'])
+
+
+def rx_show(t):
+    k = t[0]
+    if k == 'chr':
+        return t[1]
+    if k == 'dot':
+        return '.'
+    if k == 'cls':
+        return '[' + ('^' if t[1] else '') + t[2] + ']'
+    if k == 'cat':
+        return rx_show(t[1]) + rx_show(t[2])
+    if k == 'alt':
+        return rx_show(t[1]) + '|' + rx_show(t[2])
+    if k in ('star', 'plus', 'opt'):
+        return rx_show(t[1]) + {'star': '*', 'plus': '+', 'opt': '?'}[k]
+    if k == 'grp':
+        return '(' + ('' if t[1] else '?:') + rx_show(t[2]) + ')'
+    raise ValueError(t)
+
+
+def rx_tokens(t):
+    """Flat token stream of the pattern text: (text, is a single letter or '.')."""
+    k = t[0]
+    if k == 'chr':
+        return [(t[1], t[1].isalpha())]
+    if k == 'dot':
+        return [('.', True)]
+    if k == 'cls':
+        return [(rx_show(t), False)]
+    if k == 'cat':
+        return rx_tokens(t[1]) + rx_tokens(t[2])
+    if k == 'alt':
+        return rx_tokens(t[1]) + [('|', False)] + rx_tokens(t[2])
+    if k in ('star', 'plus', 'opt'):
+        return rx_tokens(t[1]) + [({'star': '*', 'plus': '+', 'opt': '?'}[k], False)]
+    return [('(' + ('' if t[1] else '?:'), False)] + rx_tokens(t[2]) + [(')', False)]
+
+
+def rx_oracle_pattern(t, gap):
+    """The pattern the property text promises: the gap class between each two neighbouring letters (or '.') of the regex."""
+    toks = rx_tokens(t)
+    if gap is None:
+        return ''.join(x for x, _ in toks)
+    out = []
+    for i, (x, plain) in enumerate(toks):
+        out.append(x)
+        if plain and i + 1 < len(toks) and toks[i + 1][1]:
+            out.append('[' + gap + ']*')
+    return ''.join(out)
+
+
+def rx_nullable(t):
+    k = t[0]
+    if k in ('chr', 'dot', 'cls'):
+        return False
+    if k == 'cat':
+        return rx_nullable(t[1]) and rx_nullable(t[2])
+    if k == 'alt':
+        return rx_nullable(t[1]) or rx_nullable(t[2])
+    if k in ('star', 'opt'):
+        return True
+    if k == 'plus':
+        return rx_nullable(t[1])
+    return rx_nullable(t[2])
+
+
+def rx_term(t):
+    k = t[0]
+    if k == 'chr':
+        return '(XChr %s)' % _byte(t[1])
+    if k == 'dot':
+        return 'XDot'
+    if k == 'cls':
+        return '(XCls %s %s)' % ('true' if t[1] else 'false', coq_bs(t[2]))
+    if k in ('cat', 'alt'):
+        return '(%s %s %s)' % ('XCat' if k == 'cat' else 'XAlt', rx_term(t[1]), rx_term(t[2]))
+    if k in ('star', 'plus', 'opt'):
+        return '(%s %s)' % ({'star': 'XStar', 'plus': 'XPlus', 'opt': 'XOpt'}[k], rx_term(t[1]))
+    return '(XGrp %s %s)' % ('true' if t[1] else 'false', rx_term(t[2]))
+
+
+def rx_kind(t):
+    ks = set()
+
+    def walk(x):
+        if x[0] == 'cls':
+            ks.add('negclass' if x[1] else 'class')
+        elif x[0] in ('star', 'plus', 'opt', 'grp', 'alt', 'dot'):
+            ks.add(x[0])
+        for y in x[1:]:
+            if isinstance(y, list):
+                walk(y)
+    walk(t)
+    return sorted(ks)
+
+
+def gen_rx_atom(rng, letters, depth, inq):
+    x = rng.random()
+    if x < 0.55 or (depth <= 0 and x >= 0.82):
+        y = rng.random()
+        return ['chr', rng.choice(letters) if y < 0.95 else rng.choice('NN-a *')]
+    if x < 0.65:
+        return ['dot']
+    if x < 0.82:
+        neg = rng.random() < 0.25
+        y = rng.random()
+        if y < 0.45:
+            body = rng.choice(letters)
+        elif y < 0.85:
+            body = ''.join(rng.sample(letters, rng.choice([2, 2, 3])))
+        else:
+            body = rng.choice(['-', '-' + rng.choice(letters), rng.choice(letters) + '.', rng.choice(letters) + '*', '.'])
+        return ['cls', neg, body]
+    return ['grp', rng.random() < 0.5, gen_rx_alt(rng, letters, depth - 1, inq)]
+
+
+def gen_rx_piece(rng, letters, depth, inq):
+    if not inq and rng.random() < 0.22:
+        a = gen_rx_atom(rng, letters, depth, True)
+        if not rx_nullable(a):
+            return [rng.choice(['star', 'plus', 'plus', 'opt', 'opt']), a]
+        return a
+    return gen_rx_atom(rng, letters, depth, inq)
+
+
+def gen_rx_cat(rng, letters, depth, inq):
+    ps = [gen_rx_piece(rng, letters, depth, inq) for _ in range(rng.choice([1, 2, 3, 3, 3, 4]))]
+    t = ps[-1]
+    for p in reversed(ps[:-1]):
+        t = ['cat', p, t]
+    return t
+
+
+def gen_rx_alt(rng, letters, depth, inq):
+    cs = [gen_rx_cat(rng, letters, depth, inq) for _ in range(rng.choice([1, 1, 1, 2, 2, 3]))]
+    t = cs[-1]
+    for c in reversed(cs[:-1]):
+        t = ['alt', c, t]
+    return t
+
+
+RX_FIXED = [  # (tree) the simple regexes a user writes for codons
+    ['cat', ['chr', 'A'], ['cat', ['cls', False, 'TU'], ['chr', 'G']]],                      # A[TU]G
+    ['grp', True, _words_rx(['ATG'])],                                                       # (ATG)
+    ['cat', ['chr', 'A'], ['cat', ['plus', ['chr', 'T']], ['chr', 'G']]],                    # AT+G
+    ['cat', ['chr', 'T'], ['grp', False, _words_rx(['AA', 'AG', 'GA'])]],                    # T(?:AA|AG|GA)
+    ['cat', _words_rx(['ATG']), ['cat', ['star', ['grp', False, _words_rx(['...'])]], ['grp', True, _words_rx(['TAA', 'TAG', 'TGA'])]]],
+    ['cat', ['chr', 'A'], ['cat', ['cls', True, 'A'], ['chr', 'G']]],                        # A[^A]G
+    ['cat', ['cls', False, 'T'], ['cat', ['chr', 'A'], ['opt', ['chr', 'A']]]],              # [T]AA?
+    ['cat', ['chr', 'A'], ['cat', ['opt', ['cls', False, 'U']], ['chr', 'G']]],
+    ['plus', ['grp', False, _words_rx(['AT'])]],
+]
+
+
+def gen_rx_case(rng, maxlen):
+    nseq = 1
+    op = rng.choice(['rx_matchall'] * 4 + ['rx_match'] * 2 + ['rx_b_matchall', 'rx_b_match', 'rx_groupby', 'rx_groupby', 'rx_b_groupby'])
+    if '_b_' in op:
+        nseq = rng.choice([0, 1, 2, 3])
+    seqs = [gen_seq(rng, maxlen) for _ in range(nseq)]
+    rna = any('U' in s for s in seqs)
+    letters = 'ACGU' if rna else 'ACGT'
+    x = rng.random()
+    alias = None
+    if x < 0.08:
+        alias = rng.choice(['start', 'stop'])
+        tree = RX_ALIAS[alias]
+    elif x < 0.25:
+        tree = rng.choice(RX_FIXED)
+    elif x < 0.4 and seqs and seqs[0]:
+        sub = gen_sub(rng, rna, seqs)
+        tree = _words_rx(words_of(sub)) if in_pattern_domain(sub) and sub not in ('start', 'stop') else gen_rx_alt(rng, letters, 2, False)
+    else:
+        tree = gen_rx_alt(rng, letters, 2, False)
+        for _ in range(5):
+            if not rx_nullable(tree):
+                break
+            tree = gen_rx_alt(rng, letters, 2, False)
+    rf, rfkind = gen_rf(rng)
+    y = rng.random()
+    if y < 0.04:
+        rf, rfkind = rng.choice([True, False]), 'bool'
+    elif y < 0.07:
+        rf, rfkind = rng.choice([1.5, 2.0, 0.0]), 'float'
+    elif y < 0.08:
+        rf, rfkind = 'object()', 'obj'
+    start = rng.choice([0, 0, 0, 0, 1, 2, 3, 4, 5, 1, 2, 3, len(seqs[0]) if seqs else 7, max(0, len(seqs[0]) - 3) if seqs else 2,
+                        max(0, len(seqs[0]) - 4) if seqs else 1, 70 if rng.random() < 0.3 else 0])
+    gap = gen_gap(rng, seqs)
+    if 'class' in rx_kind(tree) and rng.random() < 0.5:
+        gap = None
+    case = {'_op': op, 'seqs': seqs, '_rx': tree, 'rf': rf, '_rfkind': rfkind, 'start': start, '_gap': gap, '_omit': []}
+    if alias:
+        case['_alias'] = alias
+    for k, d in DEFAULTS.items():
+        if case[CASEKEY[k]] == d and rfkind not in ('bool',) and rng.random() < 0.5:
+            case['_omit'].append(k)
+    return case
+
+
+def gen_rx_small(rng):
+    """Short sequences and tails: the pattern TEXT is longer than what is left of the sequence (C13-16 dimension)."""
+    tree = rng.choice(RX_FIXED) if rng.random() < 0.7 else gen_rx_alt(rng, 'ACGT', 1, False)
+    while rx_nullable(tree):
+        tree = gen_rx_alt(rng, 'ACGT', 1, False)
+    s = ''.join(rng.choice('ATG') for _ in range(rng.choice([1, 2, 3, 3, 4, 5, 7, 9])))
+    if rng.random() < 0.5:
+        s = s + rng.choice(['ATG', 'AUG', 'ATTG', 'TAA', 'TAG', 'ACG', 'AAG', 'ATGAAATAA', 'TA', 'ATAT'])
+    start = rng.choice([0, 0, max(0, len(s) - 3), max(0, len(s) - 4), max(0, len(s) - 2), 1])
+    return {'_op': rng.choice(['rx_matchall', 'rx_matchall', 'rx_match']), 'seqs': [s], '_rx': tree, 'rf': rng.choice(['fwd', 'both', 'bwd', None]),
+            '_rfkind': 'str', 'start': start, '_gap': rng.choice([None, None, '-']), '_omit': []}
+
+
+def gen_span_case(rng):
+    b = rng.choice([0, 0, 1, 2, 5, 17])
+    e = b + rng.choice([0, 1, 3, 4, 9])
+    L = rng.choice([e, e, e + 1, e + 7, 60, 0, max(0, e - 2)])
+    return {'_op': 'span', 'rf': rng.choice([None, 0, 1, 2, -1, -2, -3, -3, -1, 5, -7]), 'L': L, 'b': b, 'e': e}
+
+
+def _is_rx(case):
+    return str(case.get('_op', '')).startswith('rx_')
+
+
+def _rx_sub(case):
+    return case.get('_alias') or rx_show(case['_rx'])
+
+
+def _rx_rfval(case):
+    k = case.get('_rfkind')
+    if k == 'obj':
+        return object()
+    if k == 'float':
+        return float(case['rf'])
+    if k == 'bool':
+        return bool(case['rf'])
+    return _rfval(case)
+
+
+def _rx_kw(case):
+    kw = {'rf': _rx_rfval(case), 'start': case['start'], 'gap': case['_gap']}
+    for k in case.get('_omit', []):
+        if case[CASEKEY[k]] == DEFAULTS[k] and case.get('_rfkind') not in ('bool', 'float', 'obj'):
+            del kw[k]
+    return kw
+
+
+def _impl_rx(case):
+    from sugar import BioSeq, BioBasket
+    from sugar.core.cane import BioMatchList
+    seqs = [BioSeq(s, id='s%d' % i) for i, s in enumerate(case['seqs'])]
+    kw = _rx_kw(case)
+    op = case['_op']
+    sub = _rx_sub(case)
+    pats = []
+
+    def obs(m, seq):
+        if m is None:
+            return None
+        pats.append(m.re.pattern)
+        return _obs(m, seq)
+
+    def grouped(r):
+        d = r.groupby('rf')
+        assert isinstance(d, dict) and all(isinstance(v, BioMatchList) for v in d.values())
+        return d
+    if op in ('rx_matchall', 'rx_match', 'rx_groupby'):
+        seq = seqs[0] if seqs else BioSeq('', id='s0')
+        r = seq.match(sub, **kw) if op == 'rx_match' else seq.matchall(sub, **kw)
+        assert str(seq) == (case['seqs'][0] if seqs else ''), 'receiver changed'
+        if op == 'rx_match':
+            res = obs(r, seq)
+        elif op == 'rx_matchall':
+            assert isinstance(r, BioMatchList)
+            res = [obs(m, seq) for m in r]
+        else:
+            res = [[k, [obs(m, seq) for m in v]] for k, v in grouped(r).items()]
+    else:
+        bb = BioBasket(seqs)
+        r = bb.match(sub, **kw) if op == 'rx_b_match' else bb.matchall(sub, **kw)
+        assert isinstance(r, BioMatchList)
+        assert [str(s) for s in bb] == case['seqs'], 'receiver changed'
+        byid = {s.id: s for s in seqs}
+        if op == 'rx_b_groupby':
+            res = [[k, [obs(m, byid[m.seqid]) for m in v]] for k, v in grouped(r).items()]
+        else:
+            res = [None if m is None else obs(m, byid[m.seqid]) for m in r]
+    assert len(set(pats)) <= 1
+    return [res, pats[0] if pats else None]
+
+
+def _impl_span(case):
+    from sugar.core.cane import BioMatch
+    b, e = case['b'], case['e']
+    m = re.compile('.{%d}' % (e - b)).match('x' * e, b)
+    assert m.span() == (b, e)
+    return [list(BioMatch(m, rf=case['rf'], lenseq=case['L']).span()), None]
+
+
+def _rfany_term(case):
+    k = case.get('_rfkind')
+    if k in ('float', 'obj'):
+        return 'RfNonIter'
+    if k == 'bool':
+        return '(RfBool %s)' % ('true' if case['rf'] else 'false')
+    return '(RfArg %s)' % _rf_term(case['rf'])
+
+
+def _rx_run_term(case):
+    gap = case['_gap']
+    return '(run_C13_rx %s %s %s %s %s %s %s)' % (
+        coq_N(RX_OPS[case['_op']]), coq_list([coq_bs(s) for s in case['seqs']]), coq_bs(_rx_sub(case)), rx_term(case['_rx']),
+        _rfany_term(case), coq_z(case['start']), 'None' if gap is None else '(Some %s)' % coq_bs(gap))
+
+
+def _rx_req(case):
+    """Requested frames from the property text; ('err', class) for values match() must reject."""
+    rf, k = case['rf'], case.get('_rfkind')
+    if k in ('float', 'obj'):
+        return ('err', 'TypeError')
+    if k == 'bool':
+        return {1} if rf else {0}
+    if rf is None:
+        return None
+    if isinstance(rf, str):
+        return {'fwd': {0, 1, 2}, 'bwd': {-1, -2, -3}, 'both': {0, 1, 2, -1, -2, -3}}.get(rf, ('err', 'AssertionError'))
+    if isinstance(rf, int):
+        return {rf}
+    return set(rf)
+
+
+def rx_expected(s, pattern, req, start, gap):
+    """Matches of the (oracle's own) pattern with CPython re on both strands; frames from residue counts."""
+    L = len(s)
+    out = []
+
+    def residues_before(strand, i):
+        return sum(1 for c in strand[start:i] if gap is None or c not in gap)
+    if req is None or req & {0, 1, 2}:
+        for m in re.finditer(pattern, s):
+            b, e = m.span()
+            if b < start:
+                continue
+            fr = None if req is None else residues_before(s, b) % 3
+            if req is None or fr in req:
+                out.append([b, e, s[b:e], fr])
+    if req is not None and req & {-1, -2, -3}:
+        r = revcomp(s)
+        for m in re.finditer(pattern, r):
+            b, e = m.span()
+            if b < start:
+                continue
+            fr = -(residues_before(r, b) % 3) - 1
+            if fr in req:
+                out.append([L - e, L - b, r[b:e], fr])
+    return out
+
+
+def _group_first_occurrence(ms):
+    keys, d = [], {}
+    for m in ms:
+        if m[3] not in d:
+            keys.append(m[3])
+            d[m[3]] = []
+        d[m[3]].append(m)
+    return [[k, d[k]] for k in keys]
+
+
+def _spec_rx(case, got):
+    req = _rx_req(case)
+    op = case['_op']
+    if isinstance(req, tuple):
+        if '_b_' in op and not case['seqs']:
+            return None if got == [[], None] else 'empty basket: expected [] got %r' % (got,)
+        return None if got == {'e': req[1]} else 'invalid rf %r: expected %s, got %r' % (case['rf'], req[1], got)
+    if isinstance(got, dict):
+        return 'raised %s' % got['e']
+    res, pat = got
+    pattern = rx_oracle_pattern(case['_rx'], case['_gap'])
+    if pat is not None and pat != pattern:
+        return 'pattern handed to re is %r, expected %r' % (pat, pattern)
+    per = [rx_expected(s, pattern, req, case['start'], case['_gap']) for s in (case['seqs'] or ([''] if '_b_' not in op else []))]
+    if op == 'rx_matchall':
+        exp = per[0]
+    elif op == 'rx_match':
+        exp = per[0][0] if per[0] else None
+    elif op == 'rx_b_matchall':
+        exp = [m for p in per for m in p]
+    elif op == 'rx_b_match':
+        exp = [p[0] if p else None for p in per]
+    elif op == 'rx_groupby':
+        exp = _group_first_occurrence(per[0])
+    else:
+        exp = _group_first_occurrence([m for p in per for m in p])
+    if res != exp:
+        return 'regex %r (gap=%r): expected %r got %r' % (_rx_sub(case), case['_gap'], exp, res)
+    return None
+
+
+def _rx_matches(got):
+    if isinstance(got, dict) or got is None or got[0] is None:
+        return []
+    res = got[0]
+    out = []
+
+    def walk(x):
+        if isinstance(x, list) and len(x) == 4 and isinstance(x[2], str):
+            out.append(x)
+        elif isinstance(x, list):
+            for y in x:
+                walk(y)
+    walk(res)
+    return out
 
 
 # ----------------------------------------------------------------------------- oracle
@@ -690,6 +1159,12 @@ def _hist_calls(case, got):
 
 
 def spec(case, got):
+    if _is_rx(case):
+        return _spec_rx(case, got)
+    if case.get('_op') == 'span':
+        b, e, L, rf = case['b'], case['e'], case['L'], case['rf']
+        exp = [L - e, L - b] if rf is not None and rf < 0 else [b, e]
+        return None if got == [exp, None] else 'span: expected %r got %r' % (exp, got)
     if case.get('_op') != 'history':
         return _spec_single(case, got)
     if isinstance(got, dict):
@@ -704,7 +1179,19 @@ def spec(case, got):
     return None
 
 
+def _rx_view(case):
+    return dict(case, sub=_rx_sub(case), _op=case['_op'][3:], rf=case['rf'] if case.get('_rfkind') not in ('float', 'obj', 'bool') else None)
+
+
 def nontrivial(case, got):
+    if case.get('_op') == 'span':
+        return 'span|mirrored' if case['rf'] is not None and case['rf'] < 0 else None
+    if _is_rx(case):
+        ms = _rx_matches(got)
+        base = _nontrivial_single(_rx_view(case), ms) if ms else None
+        if isinstance(got, dict):
+            return 'rx|error:' + got['e']
+        return None if base is None and not ms else 'rx:' + ','.join(rx_kind(case['_rx'])) + '|' + (base or '')
     if case.get('_op') != 'history':
         return _nontrivial_single(case, got)
     pairs = _hist_calls(case, got) or []
@@ -714,6 +1201,20 @@ def nontrivial(case, got):
 
 
 def histkey(case, got):
+    if case.get('_op') == 'span':
+        return ['op=span', 'span_rf=' + ('None' if case['rf'] is None else 'neg' if case['rf'] < 0 else 'nonneg')]
+    if _is_rx(case):
+        ms = _rx_matches(got)
+        ks = ['op=' + case['_op'], 'rf=' + str(case.get('_rfkind')), 'gap=' + str(case['_gap']),
+              'matches=' + ('err:' + got['e'] if isinstance(got, dict) else '0' if not ms else '1' if len(ms) == 1 else '2+')]
+        ks += ['regex_has=' + k for k in rx_kind(case['_rx'])] or ['regex_has=letters-only']
+        if any(m[3] is not None and m[3] < 0 for m in ms):
+            ks.append('rx_has_bwd_match')
+        if case['_gap'] and any(g in m[2] for m in ms for g in case['_gap']):
+            ks.append('rx_gap_inside_match')
+        if case['seqs'] and len(_rx_sub(case)) > len(case['seqs'][0]) - case['start'] and ms:
+            ks.append('rx_pattern_text_longer_than_searched_part')
+        return ks
     if case.get('_op') != 'history':
         return _histkey_single(case, got)
     ks = ['op=history', 'history_steps=%d' % len(case.get('steps', []))]
@@ -737,12 +1238,18 @@ def histkey(case, got):
 
 
 def features(case, got):
+    if _is_rx(case) or case.get('_op') == 'span':
+        return {'_op': case['_op']}
     if case.get('_op') != 'history':
         return _features_single(case, got)
     return {'_op': 'history'}
 
 
 def python_snippet(case):
+    if _is_rx(case) or case.get('_op') == 'span':
+        return ('import sys; sys.path.insert(0, "/verif/tools")\nfrom props import c13\ncase = %r\n'
+                'print(c13.impl(case))   # [observed matches as [b, e, group, rf], pattern handed to re]\n'
+                'print(c13.spec(case, c13.impl(case)))' % (case,))
     if case.get('_op') != 'history':
         return _python_snippet_single(case)
     return ('import sys; sys.path.insert(0, "/verif/tools")\nfrom props import c13\ncase = %r\n'
@@ -810,13 +1317,17 @@ LEVEL_TEXT = ('Machine-checked Coq theorems (30, all closed under the global con
               'is proved sound and complete w.r.t. a declarative relation, finditer leftmost-complete, and for plain prefix-free words without proper overlap (start, stop) every occurrence is reported exactly once; ordered alternation reports the first word that occurs; no word occurs outside the reported spans; span bounds; the start offset in forward coordinates for backward frames; empty results; rf forms count only through membership; basket wrappers element-wise. The model is tied to sugar and to '
               'CPython re by differential testing on every run plus a first-principles oracle on degapped strands. The gap argument is a '
               'character SET throughout (model, relation irel, residues, theorems): "[gap]*" is the class of the characters of the gap string and '
-              '"nt in gap" is membership; the backward-count theorem uses a regenerated-table fact for the gap symbols "-", ".", "~".')
+              '"nt in gap" is membership; the backward-count theorem uses a regenerated-table fact for the gap symbols "-", ".", "~". '
+              'Round 7 (model only so far, compared on every run, theorems follow): coq/model/C13_Rx.v models simple regexes as a syntax tree (literals, ".", classes and negated classes, '
+              'concatenation, ordered alternation, greedy * + ? on consuming atoms, capturing and non-capturing groups) with a backtracking matcher, the gap rewriting '
+              'both on the pattern text (as the code does) and on the tree, BioMatch.span, BioMatchList.groupby("rf") and the rf argument as a total decision '
+              'table with error classes (AssertionError for other strings, TypeError for non-iterables, bool = int).')
 LEVEL_NOTE = ('Trusted: Coq kernel/vm_compute, tools/gen_data.py (COMPLEMENT tables, via the C05 model), the correspondence harness, CPython re/bisect/'
               'deepcopy. Modelled rather than verified: cane.match, BioMatch.span, BioSeq/BioBasket match(all). Domain: printable-ASCII upper-case '
               'sequences, patterns start/stop/"|"-separated words over ASCII letters and ".", start >= 0, gap None or a string over "-", ".", "~" with "-" only first or last (class metacharacters "]", "^", backslash and ranges are outside). '
               'The frame theorem is at full strength (no guard) since the dot_on_gap fix 69fc7dc (bisect_left); the former witnesses '
               'are in corpus/C13/dot_on_gap.json. Tested only (differential + first-principles oracle, not proved): equivalence of the hand-written '
-              'matcher with CPython re, a BioSeq given as the pattern (cane.py:209-210, compared through its upper-cased text), independence '
+              'matcher with CPython re (word matcher and regex-tree matcher), the regex layer as a whole (no theorem yet), a BioSeq given as the pattern (cane.py:209-210, compared through its upper-cased text), independence '
               'of earlier calls / shared objects / in-place edits (400 histories per quick run; the model is pure). Statement coverage of the '
               'modelled functions in the quick tier: 81/81, no unreachable lines. No axioms.')
 TECHNIQUE = 'Coq proof over an executable model + differential correspondence with /repo on every run'
